@@ -499,6 +499,12 @@ def build_fn(gen, d):
                 pos = loops[int(re.match(r'loop(\d+)', anchor).group(1))][2] + 1
             elif re.match(r'loop(\d+)-end$', anchor):
                 pos = loops[int(re.match(r'loop(\d+)', anchor).group(1))][3]
+                # the loop body may end in a unit-typed tail expression without `;` (`x = f(..)` as last line): terminate it
+                # before the ghost block (S1: a `;` after a unit expression statement changes nothing)
+                prev = body_masked[:pos].rstrip()
+                if prev and prev[-1] not in ';{}':
+                    inserts.append((pos, ';', 'raw', None))
+                    gen.drops['S1_semicolon_added'] = gen.drops.get('S1_semicolon_added', 0) + 1
             elif re.match(r'loop(\d+)-after$', anchor):
                 pos = loops[int(re.match(r'loop(\d+)', anchor).group(1))][3] + 1
             elif anchor.startswith('after:') or anchor.startswith('before:'):
@@ -653,7 +659,7 @@ def build_type(gen, d):
         generics = m.group(5) or ''
         btxt, bmask = src[it.body_open + 1:it.body_close], masked[it.body_open + 1:it.body_close]
         fields = []
-        for fname in d.opts['keep']:
+        for fname in [x for v in d.opts['keep'] for x in v.split(',') if x]:
             if is_enum:
                 ms = [mm for mm in re.finditer(r'(?:^|[,\s])(%s\b)\s*[({,=]' % re.escape(fname), bmask)
                       if bmask[:mm.start(1)].count('(') == bmask[:mm.start(1)].count(')') and bmask[:mm.start(1)].count('{') == bmask[:mm.start(1)].count('}')]
